@@ -797,6 +797,41 @@ fn limit_child(limit: usize) -> i32 {
             }
         }
     }
+    // the limit holds for a container block whatever the same reader read before: after blocks within the
+    // limit (which leave a reused buffer of some length and capacity behind), a block whose byte size is
+    // above the limit - made of items that are each within it, all bytes present - is rejected
+    if (1024..=1 << 20).contains(&limit) {
+        let schema = Schema::parse_str(r#""bytes""#).unwrap();
+        // item payload sizes per block, as fractions of the limit in tenths: the last block is above the limit
+        let histories: [&[&[usize]]; 4] = [&[&[7], &[8], &[4, 4, 4]], &[&[9], &[5, 5, 5]], &[&[3], &[6, 6]], &[&[5, 5, 5]]];
+        for (hi, blocks) in histories.iter().enumerate() {
+            // (uncompressed: there the declared byte size is the size of the data)
+            for codec in [apache_avro::Codec::Null] {
+                checks += 1;
+                // (a block size the appends never reach: blocks end only at the explicit flushes)
+                let mut w = apache_avro::Writer::builder().schema(&schema).writer(Vec::new()).codec(codec).block_size(limit * 8).build().unwrap();
+                let mut n_before = 0usize;
+                for (bi, items) in blocks.iter().enumerate() {
+                    for tenths in items.iter() {
+                        w.append_value(Value::Bytes(vec![bi as u8 + 1; limit * tenths / 10])).unwrap();
+                    }
+                    w.flush().unwrap();
+                    if bi + 1 < blocks.len() {
+                        n_before += items.len();
+                    }
+                }
+                let bytes = w.into_inner().unwrap();
+                let got: Vec<Result<Value, String>> = match apache_avro::Reader::new(&bytes[..]) {
+                    Ok(r) => r.take(16).map(|x| x.map_err(|e| e.to_string())).collect(),
+                    Err(e) => vec![Err(format!("open: {e}"))],
+                };
+                let delivered = got.iter().filter(|x| x.is_ok()).count();
+                if delivered != n_before || got.len() != n_before + 1 {
+                    problems.push(json!({"path": "container block after earlier blocks", "codec": format!("{codec:?}"), "history": hi, "limit": limit, "block_item_sizes_in_tenths_of_the_limit": format!("{blocks:?}"), "expected": format!("{n_before} value(s), then one error for the block above the limit"), "observed": format!("{} value(s) delivered, {} item(s) in all; last: {}", delivered, got.len(), got.last().map(|x| match x { Ok(_) => "a value".to_string(), Err(e) => e.chars().take(120).collect() }).unwrap_or_default())}));
+                }
+            }
+        }
+    }
     println!("{}", json!({"limit": limit, "checks": checks, "problems": problems}));
     0
 }
